@@ -198,6 +198,10 @@ def scripted(case):
           'stats': {'scripts': evals}}
 
 
+class _UserCodeFailure(Exception):
+  pass
+
+
 def seeded(case):
   """Real RandomState through the recording seam; all seeds of the set."""
   from fedjax.core import client_datasets as cds
@@ -251,6 +255,31 @@ def seeded(case):
                     ('view whose first iteration was abandoned', view3)):
         s2 = [int(x) for bt in take(v, k, want is None) for x in np.asarray(bt['i'])]
         require(s2 == stream, nm + ' gives different batches for a fixed seed', stream, s2)
+      if case.get('flaky'):
+        # user code (a preprocessing fn) fails once in the middle of a pass: the next pass over the same view is the seeded
+        # sequence again, from the start
+        from fedjax.core import client_datasets as _cds
+        for fail_at in sorted({0, max(0, len(batches) // 2), max(0, len(batches) - 1)}):
+          calls = {'n': 0, 'armed': True}
+
+          def flaky(x, calls=calls, fail_at=fail_at):
+            calls['n'] += 1
+            if calls['armed'] and calls['n'] == fail_at + 1:
+              calls['armed'] = False
+              raise _UserCodeFailure()
+            return x
+          ds_f = type(ds)(ds.raw_examples, _cds.BatchPreprocessor([flaky]))
+          view_f = ds_f.shuffle_repeat_batch(hp)
+          try:
+            for _ in take(view_f, k, want is None):
+              pass
+            if len(batches) > 0:
+              raise core.Violation('an exception raised by a preprocessing fn was swallowed by the batch iterator')
+          except _UserCodeFailure:
+            pass
+          s3 = [int(x) for bt in take(view_f, k, want is None) for x in np.asarray(bt['i'])]
+          require(s3 == stream, 'after a pass that died in a preprocessing fn (call %d) the same seeded view yields other batches' % (fail_at + 1),
+                  stream, s3)
       streams[seed] = stream
     except core.Violation as v:
       v.case = v.case or narrowed
@@ -431,7 +460,7 @@ def configs(ns, bs, epochs, steps):
 
 def plan(ctx):
   th = ctx.tier == 'thorough'
-  epochs = [None, 1, 2, 3]
+  epochs = [None, 0, 1, 2, 3]
   steps = [None, 0, 1, 2, 5, 9]
   ctx.rule = ('scripted: every (N<=4, B, num_epochs, num_steps, drop_remainder, skip_shuffle) x every sequence of '
               'permutations the RNG can answer for the first refills; seeded: N<=8 x B<=10 x all hparams x seed set '
@@ -476,6 +505,10 @@ def plan(ctx):
   for n in ((1000, 2000, 5000) if th else (1024, 2000)):
     for b, st, ep in ((32, 8, None), (32, 8, 1), (7, 3, None), (64, 1, 2)):
       se.append({'N': n, 'B': b, 'epochs': ep, 'steps': st, 'drop': False, 'skip': False, 'seeds': seeds[:3], 'chain': False})
+  for n, b in ((5, 2), (4, 3), (1, 2), (7, 7), (3, 8)):
+    for ep, st in ((2, None), (None, 5), (3, 4), (1, None)):
+      for skip in (False, True):
+        se.append({'N': n, 'B': b, 'epochs': ep, 'steps': st, 'drop': False, 'skip': skip, 'seeds': seeds[:2], 'chain': False, 'flaky': True})
   # heavy clients (1.25 MiB .. 17 MiB of features) with batches that straddle the epoch boundary
   for wide in ((65536, 600000) if th else (65536, 600000)):
     for n, b in ((5, 2), (7, 3), (5, 8)):
